@@ -45,7 +45,7 @@ META = {
                    "inventory entries written by _generate_inventory_delta are the entries the preview shows. "
                    "Machine-checked refutations of what is still false (each reproduced on the real code and a "
                    "known finding): apply failing after a clean conflict check (replaced directory), "
-                   "resolve_conflicts raising KeyError/DuplicateKey/RecursionError. The old preview behaviour "
+                   "resolve_conflicts raising KeyError/DuplicateKey. The old preview behaviour "
                    "(content/exec looked up at the new path in the old tree) is kept as a refuted statement about "
                    "an _old definition. The resolve loop runs at most 10 passes, a clean result has no raw "
                    "conflicts, MalformedTransform only after all passes, the tree is not touched; four resolvers "
@@ -632,13 +632,55 @@ class _Gen:
             g.emit(["cancel_versioning", g.any_tid(False)])
 
 
+def _limbo_shuffle(rng, g):
+    """New directories nested in new directories, files created inside them, then moved between them,
+    names re-used, the directories renamed or moved: everything happens in limbo, so the preview reads
+    the limbo files while apply moves them into place (the class the limbo bookkeeping of
+    DiskTreeTransform.adjust_path / _rename_in_limbo / _limbo_descendants is there for)."""
+    top = g.dir_tid() if rng.random() < 0.4 else 0
+    names = rng.sample(["g", "p", "q", "r", "s", "t"], 4)
+    G = g.next
+    g.emit(["new_dir", names[0], top, g.newfid()])
+    P1 = g.next
+    g.emit(["new_dir", names[1], G, g.newfid()])
+    files = []
+    for i in range(rng.randint(1, 2)):
+        files.append((g.next, "cdef"[i]))
+        g.emit(["new_file", "cdef"[i], P1, "C%d" % g.next, g.newfid(), rng.choice([None, None, True])])
+    P2par = rng.choice([G, G, top, P1])
+    P2 = g.next
+    g.emit(["new_dir", names[2], P2par, g.newfid()])
+    targets = [G, P2, P2, top]
+    for _ in range(rng.randint(1, 3)):
+        r = rng.random()
+        if r < 0.45 and files:                      # move a file to another new directory
+            c, n = rng.choice(files)
+            g.emit(["adjust", n if rng.random() < 0.7 else n + "2", rng.choice(targets), c])
+        elif r < 0.8:                               # a new file takes a (possibly vacated) name
+            t = g.next
+            n = rng.choice([f[1] for f in files] or ["c"])
+            g.emit(["new_file", n, rng.choice([P1, P1, P2]), "D%d" % t, g.newfid(), None])
+            files.append((t, n))
+        else:                                       # a new directory inside
+            g.emit(["new_dir", names[3], rng.choice([P1, P2]), g.newfid()])
+    # finally rename / move one of the directories that have (or had) children in limbo
+    d = rng.choice([P1, P1, P2])
+    dest = rng.choice([G, G, top]) if d == P1 else rng.choice([G, top])
+    g.emit(["adjust", rng.choice(names[1:3]) + rng.choice(["", "x"]), dest, d])
+    if rng.random() < 0.3 and files:
+        c, n = rng.choice(files)
+        g.emit(["adjust", n, rng.choice(targets), c])
+
+
 def _template(rng, g):
     """Structured scenarios aimed at each conflict kind and at the preview/apply comparison."""
     base = g.base
     files = [i + 1 for i, b in enumerate(base) if b[2] == "f"]
     dirs = [i + 1 for i, b in enumerate(base) if b[2] == "d"]
     kids = {d: [i + 1 for i, b in enumerate(base) if b[0] == d] for d in [0] + dirs}
-    k = rng.randrange(16)
+    k = rng.randrange(19)
+    if k >= 16:
+        return _limbo_shuffle(rng, g)
     if k == 0 and len(files) >= 2:                      # swap two files
         x, y = rng.sample(files, 2)
         bx, by = base[x - 1], base[y - 1]
@@ -771,9 +813,22 @@ def corpus():
         [["version", 5, 30]],                         # re-versioning (finding)
         [["new_file", "x", 2, "N", 19, None], ["unversion", 6]],   # unversion of a new id (finding)
         [["unversion", 1], ["delete", 1], ["new_file", "a", 0, "MV", 1, None]],   # path lookup: repaired 33f6199
-        [["new_dir", "p", 0, None], ["new_dir", "q", 6, 11], ["adjust", "p", 7, 6]],   # RecursionError (finding)
+        [["new_dir", "p", 0, None], ["new_dir", "q", 6, 11], ["adjust", "p", 7, 6]],   # was RecursionError: repaired 3ace332 (now C14-resolve-keyerror)
+    ]
+    ops += [
+        # limbo shuffles: a file moved out of a new directory, its name re-used, the directory renamed/moved
+        [["new_dir", "g", 0, 40], ["new_dir", "p", 6, 41], ["new_file", "c", 7, "C", 42, None],
+         ["new_dir", "q", 6, 43], ["adjust", "c", 9, 8], ["new_file", "c", 7, "D", 44, None], ["adjust", "px", 6, 7]],
+        [["new_dir", "g", 2, 40], ["new_dir", "p", 6, 41], ["new_file", "c", 7, "C", 42, True],
+         ["new_dir", "q", 0, 43], ["adjust", "c2", 9, 8], ["new_file", "c", 7, "D", 44, None], ["adjust", "p", 9, 7]],
+        [["new_dir", "g", 0, None], ["new_dir", "p", 6, None], ["new_file", "c", 7, "C", None, None],
+         ["new_file", "d", 7, "E", None, None], ["new_dir", "q", 6, None], ["adjust", "c", 9, 8],
+         ["new_file", "c", 7, "D", None, None], ["adjust", "px", 0, 7], ["adjust", "d", 6, 9]],
     ]
     out = [{"base": B0, "ops": o} for o in ops]
+    # unversioned tree directory with a versioned child, moved into itself: repaired 3ace332, must pass
+    out.append({"base": [[0, "u", "d", "", False, None], [0, "b", "f", "B", False, 4]],
+                "ops": [["adjust", "b", 1, 2], ["adjust", "u", 1, 1]]})
     out.append({"base": B0, "ops": [["new_dir", "n", 0, None], ["new_file", "f", 6, "F", 21, None]], "fmt": "git"})
     out.append({"base": B0, "ops": [["new_file", "w", 0, "W", None, None]], "fmt": "git"})   # is_versioned: repaired 027384d, must pass
     out.append({"base": B0, "ops": [["new_file", "k", 0, "K", 14, None], ["new_file", "c", 6, "C", 15, None]]})  # DuplicateKey
@@ -876,9 +931,6 @@ def finding_matches(fid, inp, obs, why):
     if fid == "C14-git-duplicate-dirs-keyerror":
         return (why.startswith("resolve_conflicts raised KeyError") and inp.get("fmt") == "git"
                 and any(r[0] == 3 for r in obs[1]))
-    if fid == "C14-resolve-recursionerror":
-        return (why.startswith("resolve_conflicts raised RecursionError")
-                and any(r[0] == 2 for r in obs[1]) and any(r[0] == 1 for r in obs[1]))
     if fid == "C14-resolve-duplicatekey":
         return (why.startswith("resolve_conflicts raised DuplicateKey")
                 and any(r[0] in (1, 5, 10) for r in obs[1]))
@@ -951,7 +1003,8 @@ def shrink(inp, fails):
 
 
 FINDINGS = ["C14-replaced-directory", "C14-resolve-keyerror", "C14-resolve-duplicatekey",
-            "C14-resolve-recursionerror", "C14-unversion-unversioned", "C14-unversion-new-id", "C14-reversion",
+            "C14-unversion-unversioned", "C14-unversion-new-id", "C14-reversion",
             "C14-dead-versioned-child", "C14-git-duplicate-dirs-keyerror"]
 FIXED = ["C14-preview-content-exec", "C14-preview-path-lookup", "C14-resolve-valueerror",
-         "C14-git-preview-is-versioned"]       # repaired in /repo (2ecf5bb 33f6199 4df7934 027384d)
+         "C14-git-preview-is-versioned", "C14-resolve-recursionerror"]
+# repaired in /repo (2ecf5bb 33f6199 4df7934 027384d 3ace332)
